@@ -145,6 +145,30 @@ def rule_eqfaith(P) -> RuleResult:
     if eq is None:
         raise AnalysisError('anchor vanished: EvalNode.__eq__')
     _eq_semantics(P, res, evalnode, eq)
+    # compiled queries are dataclasses: a subquery node compares by its query, so *every* field of the query takes part in equality
+    # (two IN (SELECT ...) that differ only in their table, their LIMIT or their DISTINCT are different expressions)
+    qm = P.module(QC)
+    for ci in qm.classes.values():
+        decos = [ast.unparse(d) for d in ci.node.decorator_list]
+        if not any('dataclass' in d for d in decos):
+            continue
+        problems = []
+        if any('eq=False' in d.replace(' ', '') for d in decos):
+            problems.append('declared with eq=False (identity comparison)')
+        if '__eq__' in ci.methods:
+            problems.append('defines its own __eq__')
+        for st in ci.node.body:
+            if isinstance(st, ast.AnnAssign) and isinstance(st.target, ast.Name) and isinstance(st.value, ast.Call) and \
+                    ast.unparse(st.value.func).split('.')[-1] == 'field':
+                for k in st.value.keywords:
+                    if k.arg == 'compare' and isinstance(k.value, ast.Constant) and k.value.value is False:
+                        problems.append(f'field `{st.target.id}` is excluded from comparison (compare=False)')
+        if problems:
+            res.fail(ci.fq, 'eq-unfaithful:dataclass', f'{ci.name}: {"; ".join(problems)}: two compiled queries that differ there compare equal, and '
+                     f'the compiler merges an ORDER BY / GROUP BY expression with an *equal* target - the second subquery silently takes the '
+                     f'values of the first', loc(ci))
+        else:
+            res.ok({'class': ci.fq, 'dataclass_equality': 'all fields'})
     n = 0
     for ci in P.all_classes():
         try:
